@@ -64,6 +64,10 @@ def gen_ops():
     # a run that fails while a call is collecting its arguments (some already evaluated), and runs that format values afterwards
     add("run_err_in_call_args", 'l2 = [1]\nprintf("%v %v %v;", 7, "stale", l2[5])\nprobe(9)', pt=STD_PT)
     add("run_strfmt", 'strfmt(out, "%v-%v", fs, "y")\nprintf("%v|", fi)\nprobe(out)', pt=STD_PT)
+    # two script sets whose main script has the SAME name and text but whose callee differs: what a loaded set does when run (again)
+    # is fixed by that set, not by a set loaded later
+    add("run_use_lib_a", 'probe(1)\nuse("lib.p")\nprobe(kl)', pt=STD_PT, extra={"lib.p": 'add_key(kl, "A")'})
+    add("run_use_lib_b", 'probe(1)\nuse("lib.p")\nprobe(kl)', pt=STD_PT, extra={"lib.p": 'add_key(kl, "B")\nadd_key(extra, 1)'})
     # reads every name an earlier script assigned (they must all be the point's keys or nil here)
     add("run_ok", 'probe(r, x, k, c, kb, nf, t2, lvl, l, w, q, i, v, ev, cv, z, zz, y1)\nadd_key(r, "second")\nprobe(fi, fs, tg, fb, message, _)', pt=STD_PT)
     return ops
